@@ -5,6 +5,7 @@ inverse condition on the real functions (no external oracle needed).  DESIGN.md 
 """
 import math
 from vlib import common
+from vlib import orderpass
 from vlib.common import Acc, Report, merge, pmap
 
 PID = 'C09'
@@ -134,6 +135,10 @@ def run(tier):
                         'alias rows (veterans hurdles) may answer None; if they answer they must satisfy the inverse condition']
     if rep.coverage['distinct_nontrivial'] < 48 * 1000:
         raise common.HarnessError('vacuous: only %d non-trivial targets' % rep.coverage['distinct_nontrivial'])
+    P, S = 'athlib.athlon_performance_needed', 'athlib.athlon_score'
+    oc = [(P, a) for a in (('M', '100', 900), ('F', 'HJ', 1000), ('m', 'lj', 800), ('M', '800', 700), ('F', 'JT', 1), ('M', '1500', 0), ('M', 'PV', -3), ('X', 'HJ', 500), ('M', 'XX', 500))]
+    oc += [(S, a) for a in (('M', '100', 10.5), ('F', 'HJ', 1.8), ('M', '800', 120.0), ('M', '800', 120.0, None, True), ('M', '100', 12.5, 52), ('m', 'lj', 6.95), ('M', '80H', 13.5, 60))]
+    orderpass.part(rep, oc, 'performance-needed / score call-order pass')
     return rep.finish()
 
 
